@@ -23,6 +23,8 @@ func forall(lo, hi int, p func(i int) bool) bool { return true }
 func exists(lo, hi int, p func(i int) bool) bool { return true }
 func all[T any](p func(x T) bool) bool { return true }
 func sameblock[T any](a, b []T) bool { return true }
+func sameorigin[T any](a, b []T) bool { return true }
+func oldelem[T any](s []T, i int) T { var z T; return z }
 func implies(a, b bool) bool { return true }
 func iff(a, b bool) bool { return true }
 func cond[T any](c bool, a, b T) T { return a }
@@ -146,7 +148,11 @@ func (e *Engine) synth(pkgPath string) *synthPkg {
 		if p.PkgPath != pkgPath {
 			continue
 		}
-		sig := e.checkSig(sp, "func("+p.Params+") bool", p.Src)
+		rt := p.Result
+		if rt == "" {
+			rt = "bool"
+		}
+		sig := e.checkSig(sp, "func("+p.Params+") "+rt, p.Src)
 		sc.Insert(types.NewFunc(token.NoPos, sp.pkg, p.Name, sig))
 	}
 	names = names[:0]
@@ -392,6 +398,8 @@ func (c *EvalCtx) expr(e ast.Expr) (string, types.Type) {
 		return c.binary(n)
 	case *ast.CallExpr:
 		return c.call(n)
+	case *ast.FuncLit:
+		return c.funcValue(n), c.typeOf(n)
 	case *ast.BasicLit:
 		c.fail("literal without constant value")
 	case *ast.CompositeLit:
@@ -660,6 +668,14 @@ func (c *EvalCtx) call(n *ast.CallExpr) (string, types.Type) {
 		fobj = c.info.Uses[f.Sel]
 		fname = f.Sel.Name
 	}
+	if fv, ok := fobj.(*types.Var); ok {
+		if sig, isSig := fv.Type().Underlying().(*types.Signature); isSig && sig.Params().Len() == 1 {
+			c.x.declPsum()
+			f, _ := c.expr(fun)
+			a, _ := c.expr(n.Args[0])
+			return fmt.Sprintf("(apply1 %s %s)", f, a), rt
+		}
+	}
 	if b, ok := fobj.(*types.Builtin); ok {
 		switch b.Name() {
 		case "len", "cap":
@@ -829,23 +845,23 @@ func (c *EvalCtx) ghostCall(name string, n *ast.CallExpr, rt types.Type) (string
 		}
 		return fmt.Sprintf("(forall ((%s %s)) (=> %s %s))", v, vc.sortOf(objs[0].Type()), g, body), rt
 	case "presum":
-		fl, objs := c.lambda(n.Args[0], 1)
+		f := c.funcValue(n.Args[0])
 		k, _ := c.expr(n.Args[1])
-		// one recursive function per distinct (lambda text, state) instance
-		v := vc.fresh("q_" + objs[0].Name())
-		c.bound[objs[0]] = v
-		body, _ := c.lambdaBody(fl)
-		delete(c.bound, objs[0])
-		key := "presum|" + strings.ReplaceAll(body, v, "?")
-		fn, ok := c.x.eng.presums[vc.unit+key]
-		if !ok {
-			fn = vc.fresh("presum")
-			c.x.eng.presums[vc.unit+key] = fn
-			vc.emit(fmt.Sprintf("(declare-fun %s (Int) Int)", fn))
-			vc.emit(fmt.Sprintf("(assert (= (%s 0) 0))", fn))
-			vc.emit(fmt.Sprintf("(assert (forall ((%s Int)) (! (=> (>= %s 0) (= (%s (+ %s 1)) (+ (%s %s) %s))) :pattern ((%s (+ %s 1))) :pattern ((%s %s)))))", v, v, fn, v, fn, v, body, fn, v, fn, v))
+		return fmt.Sprintf("(psum %s %s)", f, k), rt
+	case "sameorigin":
+		a, _ := c.expr(n.Args[0])
+		b, _ := c.expr(n.Args[1])
+		return fmt.Sprintf("(and (= (s-arr %s) (s-arr %s)) (= (s-off %s) (s-off %s)))", a, b, a, b), rt
+	case "oldelem":
+		// element i of slice s as it was in the entry state (s and i themselves are evaluated normally)
+		if c.old == nil {
+			c.fail("oldelem() not available here")
 		}
-		return fmt.Sprintf("(%s %s)", fn, k), rt
+		sl, slt := c.expr(n.Args[0])
+		i, _ := c.expr(n.Args[1])
+		et := slt.Underlying().(*types.Slice).Elem()
+		k := vc.heapKey("E", et)
+		return fmt.Sprintf("(select (select %s (s-arr %s)) (eidx (s-off %s) %s))", vc.heapGet(c.old, k), sl, sl, i), et
 	case "sameblock":
 		a, _ := c.expr(n.Args[0])
 		b, _ := c.expr(n.Args[1])
@@ -923,6 +939,102 @@ func (c *EvalCtx) instanceOf(n *ast.CallExpr) types.Instance {
 		c.fail("missing type instance")
 	}
 	return inst
+}
+
+// declPsum declares function application and prefix sums over int functions.
+func (x *Exec) declPsum() {
+	vc := x.vc
+	if vc.ufs["psum"] {
+		return
+	}
+	vc.uf("apply1", []string{"Int", "Int"}, "Int")
+	vc.uf("psum", []string{"Int", "Int"}, "Int")
+	vc.emit("(assert (forall ((f Int)) (! (= (psum f 0) 0) :pattern ((psum f 0)))))")
+	// the recursive step is not instantiated automatically (it would unfold
+	// without bound); contracts request instances with `use psumStep(f, k)`
+}
+
+// funcValue translates an int->int function argument: a function literal
+// becomes a named function value defined by an axiom; a variable of function
+// type is its value.
+func (c *EvalCtx) funcValue(e ast.Expr) string {
+	c.x.declPsum()
+	vc := c.x.vc
+	if p, ok := e.(*ast.ParenExpr); ok {
+		e = p.X
+	}
+	fl, ok := e.(*ast.FuncLit)
+	if !ok {
+		t, _ := c.expr(e)
+		return t
+	}
+	_, objs := c.lambda(fl, 1)
+	if len(c.bound) > 0 {
+		c.fail("function literal used as a value inside a quantifier")
+	}
+	v := vc.fresh("q_" + objs[0].Name())
+	c.bound[objs[0]] = v
+	// record the heap terms the body reads: the function value is lifted
+	// over them, so that equal heaps (e.g. after a state merge) give equal
+	// function values by congruence
+	vc.heapTrace = map[string]string{}
+	body, _ := c.lambdaBody(fl)
+	trace := vc.heapTrace
+	vc.heapTrace = nil
+	delete(c.bound, objs[0])
+	// longest terms first, so that nested occurrences are replaced correctly
+	var hts []string
+	for t := range trace {
+		hts = append(hts, t)
+	}
+	sort.Slice(hts, func(i, j int) bool {
+		if len(hts[i]) != len(hts[j]) {
+			return len(hts[i]) > len(hts[j])
+		}
+		return hts[i] < hts[j]
+	})
+	abst := strings.ReplaceAll(body, v, "?j")
+	var params, sorts, args []string
+	for i, t := range hts {
+		pv := fmt.Sprintf("?h%d", i)
+		if !strings.Contains(abst, t) {
+			continue
+		}
+		abst = strings.ReplaceAll(abst, t, pv)
+		params = append(params, pv)
+		sorts = append(sorts, trace[t])
+		args = append(args, t)
+	}
+	key := vc.unit + "|lam|" + abst + "|" + strings.Join(sorts, ",")
+	fn, ok := c.x.eng.presums[key]
+	if !ok {
+		fn = vc.fresh("lamfun")
+		c.x.eng.presums[key] = fn
+		vc.emit(fmt.Sprintf("(declare-fun %s (%s) Int)", fn, strings.Join(sorts, " ")))
+		var binders []string
+		ab := abst
+		for i, pv := range params {
+			nm := fmt.Sprintf("%s_h%d", fn, i)
+			binders = append(binders, fmt.Sprintf("(%s %s)", nm, sorts[i]))
+			ab = strings.ReplaceAll(ab, pv, nm)
+		}
+		jv := fn + "_j"
+		ab = strings.ReplaceAll(ab, "?j", jv)
+		binders = append(binders, fmt.Sprintf("(%s Int)", jv))
+		app := fn
+		if len(params) > 0 {
+			var ns []string
+			for i := range params {
+				ns = append(ns, fmt.Sprintf("%s_h%d", fn, i))
+			}
+			app = fmt.Sprintf("(%s %s)", fn, strings.Join(ns, " "))
+		}
+		vc.emit(fmt.Sprintf("(assert (forall (%s) (! (= (apply1 %s %s) %s) :pattern ((apply1 %s %s)))))", strings.Join(binders, " "), app, jv, ab, app, jv))
+	}
+	if len(args) == 0 {
+		return fn
+	}
+	return fmt.Sprintf("(%s %s)", fn, strings.Join(args, " "))
 }
 
 // inlineCall evaluates a call to a real (loop-free) Go function inside a
